@@ -1,6 +1,7 @@
 package fwh
 
 import (
+	"strconv"
 	"fmt"
 	"strings"
 
@@ -61,6 +62,20 @@ type pendI struct {
 
 var alphabet = []string{"a", "b", "c"}
 
+// two 96-byte component values that are equal in their first 80 bytes (a hash or key routine that looks
+// at a bounded part of a value must still tell them apart)
+var longA = strings.Repeat("k", 80) + strings.Repeat("a", 16)
+var longB = strings.Repeat("k", 80) + strings.Repeat("b", 16)
+
+// fibCost: mostly small costs; now and then the far ends of the range (a last-resort route at the largest
+// cost next to a cost-0 route: differences of 2^63 and more)
+func fibCost(r *common.Rand, small []int) string {
+	if r.Chance(1, 10) {
+		return common.Pick(r, []string{"9223372036854775808", "18446744073709551615", "9223372036854775807"})
+	}
+	return strconv.Itoa(common.Pick(r, small))
+}
+
 type addrT struct {
 	kind, addr string
 	local      bool
@@ -111,6 +126,9 @@ func (s *genSt) name() enc.Name {
 	}
 	for i := 0; i < d; i++ {
 		n = append(n, comp(common.Pick(r, alphabet)))
+	}
+	if d > 0 && r.Chance(1, 14) {
+		n[len(n)-1] = comp(common.Pick(r, []string{longA, longB}))
 	}
 	return n
 }
@@ -449,7 +467,7 @@ func (s *genSt) churn() {
 	r := s.r
 	switch r.Intn(12) {
 	case 0, 1, 2, 3:
-		s.g.Op("fib %s %d %d", common.NameText(s.fibPrefix()), s.face(), common.Pick(r, []int{0, 1, 1, 5, 5, 10}))
+		s.g.Op("fib %s %d %s", common.NameText(s.fibPrefix()), s.face(), fibCost(r, []int{0, 1, 1, 5, 5, 10}))
 	case 4, 5:
 		s.g.Op("unfib %s %d", common.NameText(s.fibPrefix()), s.face())
 	case 6:
@@ -557,7 +575,7 @@ func Gen(g *common.Gen, p Profile) {
 			// several next hops on one prefix: cost ties, multicast fan-out, fall-through past unusable hops
 			pfx := s.fibPrefix()
 			for j := r.Range(1, 3); j > 0; j-- {
-				g.Op("fib %s %d %d", common.NameText(pfx), s.face(), common.Pick(r, []int{0, 1, 1, 5, 5, 10}))
+				g.Op("fib %s %d %s", common.NameText(pfx), s.face(), fibCost(r, []int{0, 1, 1, 5, 5, 10}))
 			}
 		}
 		if r.Chance(1, 3) {
